@@ -220,7 +220,11 @@ func (x *Abs) State(st server.VerifState) J {
 
 func (x *Abs) keyOrNone(k glow.PublicKey, avail bool) string {
 	if !avail {
-		return "none"
+		if k == (glow.PublicKey{}) {
+			return "none"
+		}
+		// a key in memory although no registration is in force: visible to the specification
+		return "unavailable:" + x.KR.Name(k)
 	}
 	return x.KR.Name(k)
 }
